@@ -66,6 +66,49 @@ ClassifyIn(tb, u) == IF \E x \in tb : x.url = u
                        THEN LET x == CHOOSE y \in tb : y.url = u IN [round |-> x.round, bcast |-> x.bcast, known |-> TRUE]
                        ELSE [round |-> 0, bcast |-> FALSE, known |-> FALSE]
 
+\* ---- encodings a sender can hand-craft ---------------------------------------------------------------------------------------
+\* A protocol message travels as a serialised google.protobuf.Any {type_url = 1, value = 2}.  A protobuf reader accepts the fields in
+\* any order and any number of times (for a singular field the LAST occurrence counts), skips unknown fields, accepts non-minimal
+\* varints and rejects the whole message if anything is malformed.  The library (tss.ParseWireMessage) reads the bytes that way, so
+\* the receiver's classification has to follow the same reading.  An abstract encoding is a sequence of items:
+\*   "Ur" type_url of the real type | "Ud" type_url of a decoy (another known type) | "Ue" empty type_url | "Uu" unknown type_url
+\*   "V" value | "W" another (conflicting) value | "Xv" "Xl" "X5" "X1" unknown extra field (varint / length-delimited / fixed32 /
+\*   fixed64) | "Urn" "Udn" "Vn" the same with a non-minimal length prefix | "G" malformed trailing bytes
+UrlItems == {"Ur", "Ud", "Ue", "Uu", "Urn", "Udn"}
+WhichType(item) == CASE item \in {"Ur", "Urn"} -> "real" [] item \in {"Ud", "Udn"} -> "decoy" [] item = "Uu" -> "unknown" [] OTHER -> "empty"
+RECURSIVE LastUrl(_)
+LastUrl(enc) == IF enc = <<>> THEN "none" ELSE IF enc[Len(enc)] \in UrlItems THEN enc[Len(enc)] ELSE LastUrl(SubSeq(enc, 1, Len(enc) - 1))
+RECURSIVE FirstUrl(_)
+FirstUrl(enc) == IF enc = <<>> THEN "none" ELSE IF enc[1] \in UrlItems THEN enc[1] ELSE FirstUrl(Tail(enc))
+Malformed(enc) == \E i \in DOMAIN enc : enc[i] = "G"
+\* what the library processes the bytes as: "real" | "decoy" | "reject" (malformed, no / empty / unknown type)
+LibraryType(enc) == IF Malformed(enc) \/ LastUrl(enc) = "none" THEN "reject"
+                    ELSE LET w == WhichType(LastUrl(enc)) IN IF w \in {"real", "decoy"} THEN w ELSE "reject"
+\* what the receiver classifies them as: "real" | "decoy" (the table entry of that type) | "none" (round 0, point-to-point: unknown or
+\* no type) | "reject" (error)
+ClassifiedBy(pick(_), enc) == IF Malformed(enc) THEN "reject" ELSE IF pick(enc) = "none" THEN "none"
+                              ELSE LET w == WhichType(pick(enc)) IN IF w \in {"real", "decoy"} THEN w ELSE "none"
+Classified(enc) == ClassifiedBy(LastUrl, enc)              \* the code: proto.Unmarshal into an Any
+ClassifiedFirst(enc) == ClassifiedBy(FirstUrl, enc)        \* must-fail variant: the first type_url met while walking the wire format
+\* the law: whatever the library goes on to process is classified as exactly that type
+FollowsLibrary(cls(_), enc) == LibraryType(enc) # "reject" => cls(enc) = LibraryType(enc)
+
+\* the catalogue: every sequence of <= 3 items over {Ur, Ud, V, W} and a list with the remaining item kinds
+RECURSIVE SeqsUpTo(_, _)
+SeqsUpTo(S, n) == IF n = 0 THEN {<<>>} ELSE LET shorter == SeqsUpTo(S, n - 1) IN shorter \cup {Append(q, x) : q \in shorter, x \in S}
+Encodings ==
+  SeqsUpTo({"Ur", "Ud", "V", "W"}, 3) \cup
+  { <<"Ud", "Ur", "Ud", "V">>, <<"Ur", "Ud", "Ur", "V">>, <<"Ud", "V", "W", "Ur">>, <<"Ur", "V", "W", "Ud">>,
+    <<"Xv", "Ur", "V">>, <<"Ur", "Xl", "V">>, <<"Ur", "V", "X5">>, <<"X1", "Ur", "V">>, <<"Ud", "Xl", "Ur", "V">>, <<"Ur", "Xv", "Ud", "V">>,
+    <<"Xl", "Ud", "X5", "Ur", "X1", "V", "Xv">>,
+    <<"Urn", "V">>, <<"Ur", "Vn">>, <<"Ud", "Urn", "V">>, <<"Urn", "Ud", "V">>, <<"Udn", "Ur", "V">>, <<"Ur", "Udn", "Vn">>,
+    <<"Ur", "V", "G">>, <<"Ud", "Ur", "V", "G">>, <<"G">>, <<"Ur", "G", "V">>,
+    <<"Ue", "V">>, <<"Ur", "Ue", "V">>, <<"Ue", "Ur", "V">>, <<"Ud", "Ue", "V">>,
+    <<"Uu", "V">>, <<"Uu", "Ur", "V">>, <<"Ur", "Uu", "V">>, <<"Ud", "Uu", "Ur", "V">> }
+EncodingLaws == /\ \A enc \in Encodings : FollowsLibrary(Classified, enc)
+                /\ \E enc \in Encodings : ~FollowsLibrary(ClassifiedFirst, enc)        \* the law can fail
+EncodingCases == {[items |-> enc, lib |-> LibraryType(enc), cls |-> Classified(enc)] : enc \in Encodings}
+
 \* ---- Part 3: digests ------------------------------------------------------------------------------------------------
 RECURSIVE Strip(_)
 Strip(d) == IF d = <<>> THEN <<>> ELSE IF d[1] = 0 THEN Strip(Tail(d)) ELSE d
